@@ -27,6 +27,7 @@ from . import sym
 from .sym import P, PB, L
 
 VERIF = os.path.dirname(os.path.dirname(os.path.abspath(__file__)))
+OUT = os.environ.get('VT_OUT', VERIF)          # evidence/ and replays/ go here (redirected when running against seeded mutations)
 REPLAY_PY = os.environ.get('VT_REPLAY_PY', '/venv/bin/python')
 
 
@@ -467,7 +468,7 @@ def replay_subprocess(pid, cfg, env, obname, decisions=None, keep=None):
     if decisions is not None:
         case['decisions'] = decisions
     h = hashlib.sha256(json.dumps(case, sort_keys=True).encode()).hexdigest()[:12]
-    d = os.path.join(VERIF, 'replays')
+    d = os.path.join(OUT, 'replays')
     os.makedirs(d, exist_ok=True)
     path = os.path.join(d, '%s-%s.json' % (pid, h))
     with open(path, 'w') as f:
@@ -808,10 +809,10 @@ def report(mod, pid, tier, seed, recs, wall, verbose=False):
     }
     if hasattr(mod, 'evidence_extra'):
         ev['coverage'].update(mod.evidence_extra(recs))
-    os.makedirs(os.path.join(VERIF, 'evidence'), exist_ok=True)
-    with open(os.path.join(VERIF, 'evidence', pid + '.json'), 'w') as f:
+    os.makedirs(os.path.join(OUT, 'evidence'), exist_ok=True)
+    with open(os.path.join(OUT, 'evidence', pid + '.json'), 'w') as f:
         json.dump(ev, f, indent=1, sort_keys=True, default=str)
-    with open(os.path.join(VERIF, 'evidence', pid + '.' + tier + '.detail.json'), 'w') as f:
+    with open(os.path.join(OUT, 'evidence', pid + '.' + tier + '.detail.json'), 'w') as f:
         json.dump(recs, f, indent=0, default=str)
     print('%s %s: %d configs, %d obligations: %d proved (%d by solver), %d inconclusive, %d cex (%d known), '
           '%d queries, solver %.1fs, wall %.1fs' % (pid, tier, len(recs), nob, counts.get('proved', 0), len(nontrivial),
